@@ -469,9 +469,8 @@ func checkC09PS(c *Ctx, m *Module, sl *Slicer) {
 						}
 					}
 				}
-				_ = v
-				if !uses {
-					continue
+				if !uses || onlyLenUses(v, 0) {
+					continue // reading the length of the key vector does not apply the share
 				}
 				n++
 				ok2 := hasFact(FactsAt(in), func(f Fact) bool {
@@ -693,4 +692,33 @@ func isGroupType(t types.Type) bool {
 	}
 	n := namedOf(t)
 	return n != nil && n.Obj().Pkg() != nil && n.Obj().Pkg().Path() == PkgMathlib && (n.Obj().Name() == "G1" || n.Obj().Name() == "G2")
+}
+
+
+// onlyLenUses: every (transitive) use of v is a len() — the value itself is never computed with.
+func onlyLenUses(v ssa.Value, depth int) bool {
+	if depth > 4 {
+		return false
+	}
+	refs := v.Referrers()
+	if refs == nil || len(*refs) == 0 {
+		return true
+	}
+	for _, r := range *refs {
+		switch x := r.(type) {
+		case *ssa.UnOp:
+			if x.Op != token.MUL || !onlyLenUses(x, depth+1) {
+				return false
+			}
+		case *ssa.Call:
+			b, ok := x.Call.Value.(*ssa.Builtin)
+			if !ok || b.Name() != "len" {
+				return false
+			}
+		case *ssa.DebugRef:
+		default:
+			return false
+		}
+	}
+	return true
 }
